@@ -58,19 +58,21 @@ Definition index_mismatch (k : icase) : bool := negb (index_bad k =? -1).
 (* ---- mixed EVM transactions ---- *)
 Record mcase := {
   mc_n : Z;                    (* the contract's initial ERC-20 balance = totalSupply = escrow *)
+  mc_p : Z;                    (* amount of the contract's own pending crossChain transfer made before the transaction *)
+  mc_q : Z;                    (* amount of the pending SendToFx claim (erc20 target) for the contract *)
   mc_prog : list instr;
   mc_ok : bool;                (* did the real transaction succeed *)
   mc_obs : list Z              (* observed after it: totalSupply, balanceOf C, X, erc20 module, escrow, in-flight *)
 }.
-Definition mk_mcase n p ok obs : mcase := {| mc_n := n; mc_prog := p; mc_ok := ok; mc_obs := obs |}.
+Definition mk_mcase n pp q p ok obs : mcase := {| mc_n := n; mc_p := pp; mc_q := q; mc_prog := p; mc_ok := ok; mc_obs := obs |}.
 Definition Xa : Z := 300.
-Definition m_init (n : Z) : mstate :=
-  {| committed := [(STotal, n); (SBal C, n)]; origin := []; dirty := []; escrow := n; out := 0 |}.
+Definition m_init (n p q : Z) : mstate :=
+  {| committed := [(STotal, n); (SBal C, n)]; origin := []; dirty := []; escrow := n; out := p; pend := [p]; claim := Some q |}.
 Definition m_obs (s : mstate) : list Z :=
   [sval STotal (committed s); sval (SBal C) (committed s); sval (SBal Xa) (committed s); sval (SBal Md) (committed s);
    escrow s; out s].
 Definition mixed_mismatch (k : mcase) : bool :=
-  let (s', ok) := mtx (mc_prog k) (m_init (mc_n k)) in
+  let (s', ok) := mtx (mc_prog k) (m_init (mc_n k) (mc_p k) (mc_q k)) in
   negb (Bool.eqb ok (mc_ok k) && zl_eqb (m_obs s') (mc_obs k)).
 
 (* ---- legacy (non-FIP20) externally-owned tokens: harness/c08 part C ---- *)
